@@ -19,3 +19,15 @@ extern "C" int h_s2m(unsigned d, double* a, double* re, double* im){
     return 0;
   }catch(...){ return 1; }
 }
+
+// two consecutive decompositions in one thread: the second result is reported
+extern "C" int h_eigen_twice(unsigned d, unsigned order, double* a0, double* a, double* lam, double* vre, double* vim){
+  try{
+    { SU_vector A0(d,a0); auto es0=A0.GetEigenSystem(order!=0); (void)es0; }
+    SU_vector A(d,a);
+    auto es=A.GetEigenSystem(order!=0);
+    for(unsigned i=0;i<d;i++) lam[i]=gsl_vector_get(es.first.get(),i);
+    for(unsigned i=0;i<d;i++) for(unsigned j=0;j<d;j++){ gsl_complex z=gsl_matrix_complex_get(es.second.get(),i,j); vre[i*d+j]=GSL_REAL(z); vim[i*d+j]=GSL_IMAG(z); }
+    return 0;
+  }catch(...){ return 1; }
+}
